@@ -35,3 +35,53 @@ Theorem C10_stream_sees_what_was_written : forall (kdf : bytes -> bytes -> N -> 
     map (fun r : raw => (w_name (fst (fst r)), snd r)) raws = map (fun e : entry => (fst (fst e), snd e)) es.
 Proof. exact stored_stream_roundtrip. Qed.
 Print Assumptions C10_stream_sees_what_was_written.
+
+(* ---------- the metadata phase of visit().
+   Whenever the walk over the local headers stops on the central signature at the directory start ds, and the seekable
+   reader parses n >= 1 central records from ds (archive offset ao) -- for ANY bytes, foreign or not --, and what
+   follows the directory is not another central signature (it is the end record or a ZIP64 end record): visit()
+   succeeds and its metadata pass delivers exactly the seekable reader's list, one record per entry, in order; each
+   record equal to the seekable reader's in name, raw name, comment, attributes (hence Unix mode), system, method, CRC,
+   sizes, time, extra data, encryption and AES information -- only the header offset is not shifted by the archive
+   offset and the position of the central record is not remembered (the stream has no positions).
+   [length files <= length data] bounds the walk (each central record has at least 46 bytes). *)
+From ZipV Require Import Proofs.VisitMeta.
+Theorem C10_visit_metadata_agrees : forall data ao n ds files sfiles,
+  stream_entries (S (length data)) data 0 = (sfiles, Ok (ds + 4)) ->
+  n <> 0 -> parse_cd (S (length data)) data n ds ao = Ok files ->
+  forall sig, u32_at data (cd_end (S (length data)) data n ds ao) = Ok sig -> sig <> CENTRAL_DIRECTORY_HEADER_SIGNATURE ->
+  (length files <= length data)%nat ->
+  exists gs, visit data = (sfiles, gs, Ok tt) /\
+             Forall2 (fun f g => f = seek_of g (f_central_start f) ao) files gs.
+Proof. exact visit_agrees. Qed.
+Print Assumptions C10_visit_metadata_agrees.
+
+Theorem C10_seek_of_fields : forall g c ao,
+  let f := seek_of g c ao in
+  f_name f = f_name g /\ f_name_raw f = f_name_raw g /\ f_comment f = f_comment g /\ f_ext_attr f = f_ext_attr g /\
+  f_system f = f_system g /\ f_made_by f = f_made_by g /\ f_method f = f_method g /\ f_crc f = f_crc g /\
+  f_usize f = f_usize g /\ f_csize f = f_csize g /\ f_time f = f_time g /\ f_extra f = f_extra g /\
+  f_encrypted f = f_encrypted g /\ f_aes f = f_aes g /\ f_large f = f_large g /\
+  f_header_start f = f_header_start g + ao /\ f_central_start f = c.
+Proof. exact seek_of_fields. Qed.
+Print Assumptions C10_seek_of_fields.
+
+(* non-vacuity: a 109-byte archive with one stored entry "o1" (directory at 39, end record at 87) meets the hypotheses *)
+From Coq Require Import List.
+Import ListNotations.
+Definition c10_small : bytes :=
+    [x50; x4b; x03; x04; x14; x00; x00; x00; x00; x00; xcf; x54; x71; x4d; x03; x0d; x09; xd6; x07; x00; x00; x00;
+    x07; x00; x00; x00; x02; x00; x00; x00; x6f; x31; x6f; x6c; x64; x20; x6f; x6e; x65; x50; x4b; x01; x02; x14;
+    x03; x14; x00; x00; x00; x00; x00; xcf; x54; x71; x4d; x03; x0d; x09; xd6; x07; x00; x00; x00; x07; x00; x00;
+    x00; x02; x00; x00; x00; x00; x00; x00; x00; x00; x00; x00; x00; xa4; x81; x00; x00; x00; x00; x6f; x31; x50;
+    x4b; x05; x06; x00; x00; x00; x00; x01; x00; x01; x00; x30; x00; x00; x00; x27; x00; x00; x00; x00; x00].
+Example C10_visit_metadata_nonvacuous :
+  exists sfiles files,
+    stream_entries (S (length c10_small)) c10_small 0 = (sfiles, Ok (39 + 4)) /\
+    parse_cd (S (length c10_small)) c10_small 1 39 0 = Ok files /\ length files = 1%nat /\
+    cd_end (S (length c10_small)) c10_small 1 39 0 = 87 /\
+    u32_at c10_small 87 = Ok 101010256 /\ 101010256 <> CENTRAL_DIRECTORY_HEADER_SIGNATURE.
+Proof.
+  eexists. eexists. split; [vm_compute; reflexivity|]. split; [vm_compute; reflexivity|]. split; [reflexivity|].
+  split; [vm_compute; reflexivity|]. split; [vm_compute; reflexivity|]. vm_compute. discriminate.
+Qed.
